@@ -335,7 +335,7 @@ fn run_e<B: BaseF, H: HF<B>, E: FieldElement<BaseField = B>>(shape: &Arc<Shape>,
             o.forged_equal_deep += 1;
         }
         let key = format!("{}@{}/{desc}", shape.name, cfg.short());
-        let replay = json!({"shape": shape.name, "cfg": cfg.to_json(), "move": desc});
+        let replay = json!({"shape": shape.name, "seed": shape.seed, "cfg": cfg.to_json(), "move": desc});
         match verify_proof::<B, H>(forged, &h.inputs, &own) {
             Err(Fail::Err(e)) => *o.rejected_by.entry(e.chars().take(70).collect()).or_default() += 1,
             Err(Fail::Panic(p)) => o.viol.push(Violation { class: format!("verify_panic:{}", p.location), key, detail: format!("verifier panicked at {} ({}) on move {desc}", p.location, p.message), replay }),
@@ -381,7 +381,7 @@ fn jobs(thorough: bool) -> Vec<(Arc<Shape>, Cfg)> {
         mk("deg8+mulper", Fid::F128, Hid::Sha3_256, 3, 8, 1, 4, 7, (2, 2)),
         mk("long/n64", Fid::F62, Hid::Rp62_248, 4, 8, 2, 8, 7, (1, 1)),
     ];
-    if thorough {
+    {
         v.extend([
             mk("mixed-assertions", Fid::F64, Hid::Rp64_256, 6, 8, 3, 2, 15, (1, 1)),
             mk("aux2x2+reset+exempt2", Fid::F128, Hid::Blake3_192, 5, 16, 2, 4, 31, (1, 1)),
@@ -393,6 +393,11 @@ fn jobs(thorough: bool) -> Vec<(Arc<Shape>, Cfg)> {
             mk("seq/n32/f0/s2", Fid::F128, Hid::Blake3_256, 7, 8, 2, 8, 15, (1, 1)),
         ]);
     }
+    if thorough {
+        // the same transcripts over a second trace
+        let more: Vec<(Arc<Shape>, Cfg)> = v.iter().map(|(s, c)| (Arc::new(Shape { seed: 7, ..(**s).clone() }), c.clone())).collect();
+        v.extend(more);
+    }
     v
 }
 
@@ -400,7 +405,8 @@ pub fn run(args: &Args) {
     let mut report = Report::new(args, "model_checking");
     let thorough = args.tier == mck::Tier::Thorough;
     if let Some(v) = args.replay_value() {
-        let shape = shape_by_name(v["shape"].as_str().unwrap_or(""));
+        let base = shape_by_name(v["shape"].as_str().unwrap_or(""));
+        let shape = Arc::new(Shape { seed: v["seed"].as_u64().unwrap_or(1), ..(*base).clone() });
         let cfg = Cfg::from_json(&v["cfg"]);
         let mv = v["move"].as_str().unwrap_or("").to_string();
         let o = dispatch!(cfg, run_g, &shape, &cfg, Some(&mv));
